@@ -1,5 +1,6 @@
 import SockModel.Model.AddrLemmas
 import SockModel.Generated.Funcs
+import SockModel.Basic.TieTactic
 /-!
 # C13  Address ==, <, hash are lawful and provenance-independent; endpoints agree
 
@@ -365,42 +366,40 @@ unsigned lexicographic comparison -/
 def MemcmpResult (a b : Image) (cmp : Int) : Prop :=
   (cmp < 0 ↔ ltBytes a b = true) ∧ (cmp = 0 ↔ eqBytes a b = true)
 
+/-- the model's `lt`, as arithmetic on the two lengths and the `memcmp` result -/
+theorem model_lt_arith (a b : Image) (cmp : Int) (h : MemcmpResult a b cmp) :
+    Addr.lt a b = decide ((a.length : Int) < b.length ∨ ((a.length : Int) = b.length ∧ cmp < 0)) := by
+  obtain ⟨h0, _⟩ := h
+  unfold Addr.lt
+  cases he : ltBytes a b <;> simp [he] at h0 <;>
+    by_cases h1 : a.length < b.length <;> by_cases h2 : b.length < a.length <;> simp [h1, h2] <;> omega
+
+/-- the model's `eq`, as arithmetic on the two lengths and the `memcmp` result -/
+theorem model_eq_arith (a b : Image) (cmp : Int) (h : MemcmpResult a b cmp) :
+    Addr.eq a b = decide ((a.length : Int) = b.length ∧ cmp = 0) := by
+  obtain ⟨_, h0⟩ := h
+  unfold Addr.eq
+  by_cases h1 : a.length = b.length
+  · cases he : eqBytes a b <;> simp [he] at h0 <;> simp [h1, h0]
+  · have hb : (a.length == b.length) = false := by simp [h1]
+    have hd : decide ((a.length : Int) = b.length) = false := by simp; omega
+    simp [hb, hd]
+
+/-- `SockAddrView::operator<` as compiled from the current source = the model's `lt`, for every `memcmp`
+result that has the sign of the byte comparison -/
 theorem tie_lt (a b : Image) (cmp : Int) (h : MemcmpResult a b cmp) :
     Gen.SockAddrView_lt a.length b.length cmp = Addr.lt a b := by
-  unfold Gen.SockAddrView_lt Addr.lt
-  by_cases h1 : a.length < b.length
-  · have : (a.length : Int) < (b.length : Int) := by omega
-    simp [h1, this]
-  · by_cases h2 : b.length < a.length
-    · have h3 : ¬ (a.length : Int) < (b.length : Int) := by omega
-      have h4 : (a.length : Int) > (b.length : Int) := by omega
-      simp [h1, h2, h3, h4]
-    · have h3 : ¬ (a.length : Int) < (b.length : Int) := by omega
-      have h4 : ¬ (a.length : Int) > (b.length : Int) := by omega
-      simp only [h1, h2, h3, h4, if_false]
-      cases hl : ltBytes a b with
-      | true => have := h.1.mpr hl; simp; omega
-      | false =>
-        have : ¬ cmp < 0 := fun hc => by have := h.1.mp hc; simp [hl] at this
-        simp; omega
+  rw [model_lt_arith a b cmp h]
+  simp only [Gen.SockAddrView_lt]
+  tie_bool_arith
 
+/-- `SockAddrView::operator==` likewise -/
 theorem tie_eq (a b : Image) (cmp : Int) (h : MemcmpResult a b cmp) :
     Gen.SockAddrView_eq a.length b.length cmp = Addr.eq a b := by
-  unfold Gen.SockAddrView_eq Addr.eq
-  cases he : eqBytes a b with
-  | true =>
-    have hc : cmp = 0 := h.2.mpr he
-    by_cases hl : a.length = b.length
-    · have : (a.length : Int) = (b.length : Int) := by omega
-      simp [hl, hc]
-    · have : ¬ (a.length : Int) = (b.length : Int) := by omega
-      simp [hl, this]
-  | false =>
-    have hc : ¬ cmp = 0 := fun hc => by have := h.2.mp hc; simp [he] at this
-    have : ¬ (0 : Int) = cmp := fun h0 => hc h0.symm
-    simp [this]
+  rw [model_eq_arith a b cmp h]
+  simp only [Gen.SockAddrView_eq]
+  tie_bool_arith
 
-/-- the hypothesis of the two ties is satisfiable for every pair of images -/
 theorem ltBytes_not_eqBytes : ∀ (a b : List UInt8), ltBytes a b = true → eqBytes a b = false
   | [], _, h => by simp [ltBytes] at h
   | _ :: _, [], h => by simp [ltBytes] at h
